@@ -126,8 +126,10 @@ func MakeConfig(seed uint64, profile, tier string) SwarmConfig {
 	case "C16":
 		emph("oraclechaos")
 	case "C17":
-		emph("attacker")
+		emph("attacker", "perp", "levlp", "orders", "lender", "lp", "commit")
+		c.Shadow = true
 	case "C18":
+		c.Shadow = r.IntN(2) == 0
 		f.OracleOutage = pick(r, []float64{0.03, 0.08})
 		f.OutageLen = pick(r, []int{3, 10, 40})
 		f.ClockJump = pick(r, []float64{0.02, 0.08})
